@@ -43,6 +43,26 @@ def cases(tier, rng):
         hf = rng.randrange(2)
         frc = [rng.randint(1, 3) for _ in range(n)] if hf else []
         yield {"k": 2001, "args": [[nr], [nc], obs, [hm], msk, [nod], [hf], frc, rng.choice([[3, 4, 5], [4, 3, 5]])], "group": "rand-int"}
+    # compact patches of observation cells (plus shapes, blocks) with strongly varying friction: an enclosed source cell
+    # can be the cheapest way out through a diagonal (round-2 seed: enclosed sources not queued)
+    for t in range(150 if tier == "quick" else 1500):
+        nr, nc = rng.randint(3, mx), rng.randint(3, mx)
+        n = nr * nc
+        nod = rng.choice([0, -1])
+        obs = [nod] * n
+        frc = [rng.randint(3, 9) for _ in range(n)]
+        for _ in range(rng.randint(1, 3)):
+            r, c = rng.randint(1, nr - 2), rng.randint(1, nc - 2)
+            shape = rng.choice(["plus", "plus", "block", "L"])
+            cells = {"plus": [(0, 0), (-1, 0), (1, 0), (0, -1), (0, 1)], "block": [(0, 0), (0, 1), (1, 0), (1, 1), (-1, 0), (0, -1)],
+                     "L": [(0, 0), (1, 0), (0, 1), (-1, 0)]}[shape]
+            for k, (dr, dc) in enumerate(cells):
+                if 0 <= r + dr < nr and 0 <= c + dc < nc:
+                    obs[(r + dr) * nc + c + dc] = k + 1
+            frc[r * nc + c] = 1
+        hm = int(rng.random() < 0.3)
+        msk = [int(rng.random() < 0.9) for _ in range(n)] if hm else []
+        yield {"k": 2001, "args": [[nr], [nc], obs, [hm], msk, [nod], [1], frc, rng.choice([[3, 4, 5], [4, 3, 5]])], "group": "patches"}
     for t in range(60 if tier == "quick" else 600):
         yield {"k": 2000, "args": [[t]], "call": {"what": rng.choice(["geo", "geo", "dissolve"]), "seed": rng.randrange(10**9)}, "group": "float-and-dissolve"}
 
